@@ -74,7 +74,9 @@ class Flat(Part):
                 "thorough": dict(examples=3000, shards=16, seconds=600)}[tier]
 
     def strategy(self, tier):
-        return gen.case_flat(max_extent=5 if tier == "quick" else 8)
+        me = 5 if tier == "quick" else 8
+        return st.one_of(gen.case_flat(max_extent=me), gen.case_flat(max_extent=me), gen.case_flat(max_extent=me),
+                         gen.case_flat_discord(max_extent=me), gen.case_flat2(max_extent=me))
 
     def run_case(self, case):
         return run_mapped_vs_unmapped(case)
